@@ -358,9 +358,9 @@ def lower_many(jobs):
         return [f.result() for f in futs]
 
 
-def preprocess(unit, extra=()):
+def preprocess(unit, extra=(), linemarkers=True):
     """Preprocessed text of a unit with the real flags (used for .S files)."""
-    cmd = ["clang", "-E", "-P"] + unit.flags() + list(extra) + [unit.file]
+    cmd = ["clang", "-E"] + ([] if linemarkers else ["-P"]) + unit.flags() + list(extra) + [unit.file]
     p = run(cmd, cwd=unit.directory)
     return p.stdout.decode(errors="replace")
 
